@@ -692,4 +692,76 @@ class Faults(Part):
         return True
 
 
-PARTS = [Histories(), Faults()]
+
+class TrackGenerator(Part):
+    name = "track-generator"
+    rule = ("rich.progress.track(sequence, console=..., transient=...) used as a for loop that runs to the end, or is left early by break / return / an exception in the loop body "
+            "(Exception or bare BaseException) after k elements, on a terminal console with redirection on: afterwards the cursor is visible, stdout/stderr are the original "
+            "objects, no render hook is left, and the screen shows the printed lines followed by the last bar (nothing if transient); non-trivial = the loop was left early")
+    budget = {"quick": (4, 60), "thorough": (16, 600)}
+    chunk = 60
+
+    def strategy(self, tier):
+        return st.builds(lambda n, k, how, tr, pr, W: {"n": n, "k": k, "how": how, "transient": tr, "prints": pr, "W": W}, st.integers(1, 8), st.integers(0, 8),
+                         st.sampled_from(["complete", "break", "return", "exception", "base-exception"]), st.booleans(), st.booleans(), st.integers(30, 80))
+
+    def check(self, spec, ctx):
+        import gc
+        import rich.progress as RP
+
+        con, f, twin = make_consoles(spec["W"], 12)
+        old_out, old_err = sys.stdout, sys.stderr
+        printed = []
+
+        def loop():
+            for i in RP.track(range(spec["n"]), description="job", console=con, transient=spec["transient"], auto_refresh=False):
+                if spec["prints"]:
+                    con.print("item %d" % i)
+                    printed.append("item %d" % i)
+                if i + 1 >= spec["k"] and spec["how"] != "complete":
+                    if spec["how"] == "break":
+                        break
+                    if spec["how"] == "return":
+                        return
+                    raise (BoomE if spec["how"] == "exception" else Boom)("loop body")
+
+        early = spec["how"] != "complete" and spec["k"] <= spec["n"] and spec["n"] > 0
+        try:
+            try:
+                loop()
+            except Boom:
+                pass
+            except Exception as e:  # noqa
+                raise SutError(e)
+            gc.collect()   # a generator that was left early is closed when it is released
+            problems = []
+            if sys.stdout is not old_out or sys.stderr is not old_err:
+                problems.append("stdout/stderr still redirected")
+            if con._render_hooks:
+                problems.append("%d render hook(s) left" % len(con._render_hooks))
+            vt = VT(spec["W"], 12)
+            try:
+                vt.feed(f.getvalue())
+            except VTError as e:
+                problems.append("stream: %s" % e)
+            else:
+                if not vt.cursor_visible:
+                    problems.append("cursor left hidden")
+                rows = [r for r in vt.screen() if r.strip()]
+                if rows[:len(printed)] != printed[-12:][:len(rows[:len(printed)])] and len(printed) < 10:
+                    problems.append("printed lines %r, screen %r" % (printed, rows))
+                if spec["transient"] and any(r.startswith("job") for r in rows):
+                    problems.append("a transient bar is still on the screen: %r" % rows)
+                if sum(1 for r in rows if r.startswith("job")) > 1:
+                    problems.append("more than one bar on the screen: %r" % rows)
+            if problems:
+                ctx.violation("restore", "C10/track/%s" % spec["how"], "after a track() loop over %d elements left by %s after %d: %s" % (spec["n"], spec["how"], spec["k"], "; ".join(problems)))
+                return
+        finally:
+            sys.stdout, sys.stderr = old_out, old_err
+        if early:
+            ctx.nontrivial = True
+        ctx.cls("loop-" + spec["how"])
+
+
+PARTS = [Histories(), Faults(), TrackGenerator()]
